@@ -498,6 +498,23 @@ func checkErrCell(e *Env, rule, q string) {
 				bad = fmt.Sprintf("the return at %s yields an error that was never assigned to the variable the deferred cleanup inspects (it sees nil and skips the cleanup)", e.pos(ret))
 			}
 		}
+		// polarity: inside the deferred body nothing runs only where the inspected error is nil (the clean-up belongs to the failure edge)
+		if body := core.StaticFn(ed.d); body != nil && bad == "" {
+			for _, i := range core.IfsOf(body) {
+				ev, nilBranch, isE := core.ErrNilEdge(i)
+				if !isE || i.Parent() != body {
+					continue
+				}
+				if ld, isLd := ev.(*ssa.UnOp); !isLd || ld.Op != token.MUL {
+					continue
+				}
+				core.InstrsOwn(body, func(in ssa.Instruction) {
+					if c, isC := in.(*ssa.Call); isC && !strings.HasPrefix(core.CalleeName(c), "builtin.") && core.OnlyViaEdge(i, nilBranch, c) {
+						bad = fmt.Sprintf("the deferred clean-up at %s runs only when the inspected error is nil: a failed call keeps its state and a successful one loses it", e.pos(c))
+					}
+				})
+			}
+		}
 		e.R.Check(bad == "" && n > 0, rule, fmt.Sprintf("%s:error-cell-cleanup", q), e.pos(ed.d), fmt.Sprintf("all %d error returns after the defer return the inspected variable itself (or the cleanup already ran)", n), bad)
 	}
 }
